@@ -19,7 +19,8 @@ use kvh::*;
 use std::sync::{Arc, Condvar, Mutex};
 
 const R_IDS: [u32; 9] = [1, 2, 3, 4, 5, 6, 7, 8, 9];
-const W_IDS: [u32; 14] = [101, 102, 103, 104, 105, 106, 107, 108, 109, 110, 111, 112, 113, 114];
+// pause ids in the order the writer reaches them since /repo 953436b (backend commit first)
+const W_IDS: [u32; 14] = [101, 102, 103, 108, 109, 110, 111, 112, 113, 114, 104, 105, 106, 107];
 
 // ------------------------------------------------------------------ scheduler
 struct SchedState {
